@@ -150,6 +150,19 @@ func (self *Interpreter) forStatement(node ast.AnalyzedForStatement) *value.Inte
 		return i
 	}
 
+	// Iterate over a snapshot with its own iteration state, like the VM does: otherwise a body which
+	// grows the list never terminates and nested loops over the same value share one cursor.
+	switch iterable := (*iterVal).(type) {
+	case value.ValueList:
+		snapshot := make([]*value.Value, len(*iterable.Values))
+		copy(snapshot, *iterable.Values)
+		iterVal = value.NewValueList(snapshot)
+	case value.ValueString:
+		iterVal = value.NewValueString(iterable.Inner)
+	case value.ValueRange:
+		iterVal = value.NewValueRange(*iterable.Start, *iterable.End, iterable.EndIsInclusive)
+	}
+
 	iterator := (*iterVal).IntoIter()
 
 	// add a new scope for the loop
